@@ -73,6 +73,9 @@ type Term struct {
 	V       uint64
 	Name    string
 	F       bool // Float64 sort (W == 64)
+	// known bits of a bit-vector term (computed at construction): a bit set in
+	// KZ is known to be 0, a bit set in KO is known to be 1
+	KZ, KO uint64
 }
 
 func mask(w uint8) uint64 {
@@ -105,9 +108,63 @@ func init() {
 				break
 			}
 			smallConst[i][v] = &Term{Op: OConst, W: w, V: uint64(v)}
+			smallConst[i][v].knownBits()
 		}
 	}
 }
+
+// knownBits derives bits that are fixed whatever the inputs are. It lets
+// comparisons of masked bytes with constants (e.g. (b&0x0f|0x40) == '{') fold
+// without a solver query.
+func (t *Term) knownBits() {
+	if t.W == 0 || t.F {
+		return
+	}
+	m := mask(t.W)
+	switch t.Op {
+	case OConst:
+		t.KO, t.KZ = t.V&m, ^t.V&m
+	case OBAnd:
+		t.KZ, t.KO = (t.A.KZ|t.B.KZ)&m, t.A.KO&t.B.KO
+	case OBOr:
+		t.KO, t.KZ = (t.A.KO|t.B.KO)&m, t.A.KZ&t.B.KZ
+	case OBXor:
+		known := (t.A.KZ | t.A.KO) & (t.B.KZ | t.B.KO)
+		v := (t.A.KO ^ t.B.KO) & known
+		t.KO, t.KZ = v, known&^v
+	case OZext:
+		t.KO = t.A.KO
+		t.KZ = t.A.KZ | (m &^ mask(t.A.W))
+	case OExtract:
+		t.KO, t.KZ = t.A.KO&m, t.A.KZ&m
+	case OIte:
+		t.KO, t.KZ = t.B.KO&t.C.KO, t.B.KZ&t.C.KZ
+	case OShl:
+		if t.B.IsConst() && t.B.V < uint64(t.W) {
+			k := t.B.V
+			t.KO = (t.A.KO << k) & m
+			t.KZ = ((t.A.KZ << k) | (uint64(1)<<k - 1)) & m
+		}
+	case OLShr:
+		if t.B.IsConst() && t.B.V < uint64(t.W) {
+			k := t.B.V
+			t.KO = (t.A.KO & m) >> k
+			t.KZ = ((t.A.KZ & m) >> k) | (m &^ (m >> k))
+		}
+	case OSext:
+		t.KO, t.KZ = t.A.KO, t.A.KZ
+		sb := uint64(1) << (t.A.W - 1)
+		hi := m &^ mask(t.A.W)
+		if t.A.KO&sb != 0 {
+			t.KO |= hi
+		} else if t.A.KZ&sb != 0 {
+			t.KZ |= hi
+		}
+	}
+}
+
+func (t *Term) umin() uint64 { return t.KO }
+func (t *Term) umax() uint64 { return ^t.KZ & mask(t.W) }
 
 func Const(w uint8, v uint64) *Term {
 	if w == 0 {
@@ -172,6 +229,7 @@ func mk(t Term) *Term {
 	}
 	p := new(Term)
 	*p = t
+	p.knownBits()
 	sh.m[k] = p
 	sh.mu.Unlock()
 	return p
@@ -240,6 +298,9 @@ func Eq(a, b *Term) *Term {
 	}
 	if a.IsConst() && b.IsConst() {
 		return Bool(a.V == b.V)
+	}
+	if a.W != 0 && !a.F && (a.KO&b.KZ != 0 || a.KZ&b.KO != 0) {
+		return tFalse // some bit is known to differ
 	}
 	if a.W == 0 {
 		// bool equality
@@ -349,6 +410,32 @@ func Bin(op Op, a, b *Term) *Term {
 	switch op {
 	case OUlt, OUle, OSlt, OSle:
 		rw = 0
+		// interval reasoning from known bits
+		uns := op == OUlt || op == OUle
+		if !uns && w > 0 {
+			sb := uint64(1) << (w - 1)
+			if a.KZ&sb != 0 && b.KZ&sb != 0 {
+				uns = true // both non-negative: signed order = unsigned order
+			}
+		}
+		if uns {
+			strict := op == OUlt || op == OSlt
+			if strict {
+				if a.umax() < b.umin() {
+					return tTrue
+				}
+				if a.umin() >= b.umax() {
+					return tFalse
+				}
+			} else {
+				if a.umax() <= b.umin() {
+					return tTrue
+				}
+				if a.umin() > b.umax() {
+					return tFalse
+				}
+			}
+		}
 	}
 	switch op {
 	case OAdd:
